@@ -123,8 +123,8 @@ func verifPipeline(shape int) {
 	} else {
 		verifAssert(got == nil, "completion carries no error when every stage succeeded")
 	}
-	if !run.anyPanic && run.failed == 0 {
-		verifAssert(pendingAtCallback == 0, "without failures completion is signalled only after every started stage finished")
+	if !run.anyPanic {
+		verifAssert(pendingAtCallback == 0, "when no stage panics completion is signalled only after every started stage finished")
 	}
 	verifReach("end")
 }
